@@ -594,6 +594,7 @@ where
         }
 
         let (mut res_dft, scratch_2) = scratch_1.take_vec_znx_dft(self, cols, tsk_size); // Todo optimise
+        res_dft.zero(); // for dsize > 2 the product accumulates onto limbs its first digit does not write
 
         self.gglwe_product_dft(&mut res_dft, &a_dft, &tsk.0, scratch_2);
         let mut res_big: VecZnxBig<&mut [u8], BE> = self.vec_znx_idft_apply_consume(res_dft);
